@@ -367,30 +367,50 @@ def generate(repo):
 
     def bindown():
         fn = get_def(dt, 'bindown')
-        outs = find_assigns(fn, 'output_shape')
         from pyexpr2lean import elementwise
-        term = elementwise(outs[0], {'array.shape': 's', 'factor': 'f'})
-        il = interleave(outs[1]) if len(outs) > 1 else None
-        if il == ('output_shape', 'factor'):
-            inter = True
-        elif il == ('factor', 'output_shape'):
-            inter = False
-        else:
-            raise Untranslatable(f'interleaved shape written as {ast.unparse(outs[1]) if len(outs) > 1 else None}')
+        # data flow, not names: intermediate_view = array.reshape(X); X = interleave(A, B); the non-factor one of A, B is the
+        # per-axis output length, assigned (last, before X's interleaving) from a comprehension over zip(array.shape, factor)
+        iv = find_assign(fn, 'intermediate_view')
+        if not (isinstance(iv, ast.Call) and ast.unparse(iv.func) == 'array.reshape' and len(iv.args) == 1 and isinstance(iv.args[0], ast.Name)
+                and not iv.keywords):
+            raise Untranslatable('intermediate view')
+        xname = iv.args[0].id
+        top = [s_ for s_ in fn.body if isinstance(s_, ast.Assign) and len(s_.targets) == 1 and isinstance(s_.targets[0], ast.Name)]
+        xs = [s_ for s_ in top if s_.targets[0].id == xname]
+        il = interleave(xs[-1].value) if xs else None
+        if il is None or 'factor' not in il or il[0] == il[1]:
+            raise Untranslatable(f'interleaved shape written as {ast.unparse(xs[-1].value) if xs else None}')
+        inter = il[1] == 'factor'
+        oname = il[0] if inter else il[1]
+        os_ = [s_ for s_ in top if s_.targets[0].id == oname and s_.lineno < xs[-1].lineno]
+        if len(os_) != 1:
+            raise Untranslatable(f'{len(os_)} assignments to the output lengths {oname}')
+        term = elementwise(os_[0].value, {'array.shape': 's', 'factor': 'f'})
         red = find_assign(fn, 'reduction_axes')
         assert ast.unparse(red.func) == 'tuple' and ast.unparse(red.args[0].func) == 'range'
         tr = Tr({'array.ndim': 'ndim'})
         lo, hi, st = (tr.expr(a) for a in red.args[0].args)
-        if ast.unparse(find_assign(fn, 'intermediate_view')) != 'array.reshape(output_shape)':
-            raise Untranslatable('intermediate view')
         view = True
         modes = {}
         for key, body in branch_table(fn, 'mode').items():
-            if len(body) == 1 and isinstance(body[0], ast.Assign):
+            if len(body) == 1 and isinstance(body[0], (ast.Assign, ast.Return)) and body[0].value is not None:
                 modes[key] = ast.unparse(body[0].value)
         known = {'intermediate_view.mean(axis=reduction_axes)', 'intermediate_view.sum(axis=reduction_axes)'}
         if not set(modes.values()) <= known or not all(k in modes for k in ('avg', 'average', 'mean', 'sum')):
             raise Untranslatable(f'mode table {modes}')
+        # what the function hands back is what a branch computed, untouched: every return is a known reduction or the variable the
+        # branches assign, and that variable is assigned nowhere else
+        from pyexpr2lean import find_returns
+        rets = [ast.unparse(r) for r in find_returns(fn)]
+        res_names = {r for r in rets if r not in known}
+        n_assign = {nm: sum(1 for n_ in ast.walk(fn) if isinstance(n_, (ast.Assign, ast.AugAssign)) and nm in
+                            [ast.unparse(t) for t in (n_.targets if isinstance(n_, ast.Assign) else [n_.target])]) for nm in res_names}
+        n_branch = {nm: sum(1 for b_ in branch_table(fn, 'mode').values() if len(b_) == 1 and isinstance(b_[0], ast.Assign)
+                            and ast.unparse(b_[0].targets[0]) == nm) for nm in res_names}
+        distinct_branches = {nm: len({id(b_) for b_ in branch_table(fn, 'mode').values() if len(b_) == 1 and isinstance(b_[0], ast.Assign)
+                                      and ast.unparse(b_[0].targets[0]) == nm}) for nm in res_names}
+        if len(res_names) > 1 or any(not nm.isidentifier() or n_assign[nm] != distinct_branches[nm] for nm in res_names):
+            raise Untranslatable(f'bindown returns {rets}')
         ok_modes = all(modes.get(k) == 'intermediate_view.mean(axis=reduction_axes)' for k in ('avg', 'average', 'mean')) \
             and modes.get('sum') == 'intermediate_view.sum(axis=reduction_axes)'
         outl = '(List.zipWith (fun s f => binOutLen s f) shape f)'
@@ -625,9 +645,12 @@ def generate(repo):
         kof = {}
         for n in fn.body:
             if isinstance(n, ast.Assign) and isinstance(n.value, ast.Call) and ast.unparse(n.value.func) == 'ndimage.convolve':
+                if len(n.value.args) != 2:
+                    raise Untranslatable('convolve with positional options')
                 a0, a1 = n.value.args
-                if ast.unparse(a0) != 'img' or n.value.keywords:
-                    raise Untranslatable('convolve of something else / with keywords')
+                # the boundary rule (mode / cval) is the business of the item demosaic_malvar.boundary
+                if ast.unparse(a0) != 'img' or any(kw.arg not in ('mode', 'cval') for kw in n.value.keywords):
+                    raise Untranslatable('convolve of something else / with other keywords')
                 name = n.targets[0].id
                 # which filtered image this is follows from the kernel it is made with, not from the name of the local
                 role = {'kernelGAtRB': 'gest', 'kernelRAtGInRB': 'c1', 'kernelRAtGInBR': 'c2', 'kernelRAtBInBB': 'c3'}[kvar[a1.id]]
